@@ -722,7 +722,7 @@ def _data_cases(fam, tier):
         npieces = src.count('|') + 1
         if fam == 'N9':
             nb = len(_n9_expected_breaks(dict(tmid=form, win=win)))
-            if npieces > 1 and npieces != nb + 1 and not (nb == 0 and npieces == 2):
+            if npieces > 1 and npieces != nb + 1:
                 continue            # piecewise data are paired with the matching number of breaks
             if tref[0] == 'b' and int(tref[1]) > nb:
                 continue
